@@ -140,6 +140,15 @@ fn uni_haystacks(pool: &[Pat], rng: &mut Prng, n: usize) -> Vec<String> {
         let near = rng.chance(2, 3);
         hs.push(uni_instance(&p, rng, near));
     }
+    // the patterns' own source texts (regex string, doubly escaped, a prefix's string, un-escaped)
+    for _ in 0..2.min(pool.len()) {
+        let p = rng.pick(pool).clone();
+        for h in source_haystacks(&p, rng) {
+            if !hs.contains(&h) {
+                hs.push(h);
+            }
+        }
+    }
     hs
 }
 
@@ -180,9 +189,18 @@ fn gen_router(rng: &mut Prng, emit: &mut dyn FnMut(Value)) {
                 _ => {}
             }
             if on_host {
+                // … and a host equal to the rendered marker regex / the rule text itself
+                reqs.push(json!({"path": rules[i]["path"], "host": format!("{}(?:{regex}).example.com", regex::escape(lit))}));
+                reqs.push(json!({"path": rules[i]["path"], "host": format!("{lit}@m{i}.example.com")}));
                 reqs.push(json!({"path": rules[i]["path"], "host": format!("{lit_r}{inst}.example.com")}));
             } else {
                 let tail = rules[i]["path"].as_str().unwrap().split(&format!("@m{i}")).nth(1).unwrap_or("").to_string();
+                // a request path equal to the rendered marker regex (the pattern's own source text), to its escaped form and to
+                // the rule text with the marker name
+                let src = format!("/{}/(?:{regex}){}", regex::escape(lit), regex::escape(&tail));
+                reqs.push(json!({"path": src, "host": Value::Null}));
+                reqs.push(json!({"path": regex::escape(&src), "host": Value::Null}));
+                reqs.push(json!({"path": format!("/{lit}/@m{i}{tail}"), "host": Value::Null}));
                 reqs.push(json!({"path": format!("/{lit_r}/{inst}{tail}"), "host": if rng.chance(1, 2) { json!("example.com") } else { Value::Null }}));
             }
         }
@@ -338,7 +356,11 @@ fn gen_hinted_twin(h: &Hints, rng: &mut Prng, emit: &mut dyn FnMut(Value)) {
             }
             ops.push(json!(["r", "i0"]));
             let hay = vec![format!("/{t}é"), format!("/{t}٤٢"), format!("/{t}a/z"), format!("/Ж{t}"), format!("/{}", t.to_uppercase()), format!("/{}", t.to_lowercase()), format!("/{t}{t}"), format!("/{t}")];
+            // case-insensitive only when the model's folding table covers the hinted text (else the case would be modelled wrongly)
             for ic in [false, true] {
+                if ic && !hint_ic_ok(&t) {
+                    continue;
+                }
                 emit(json!({"mode": "twin", "ic": ic, "unique": false, "ops": ops, "hay": hay}));
             }
         }
